@@ -146,7 +146,8 @@ func init() {
 		Explanation: "Restart behaviour is out of reach; the record mappings are decided for each of the four backends: " +
 			"(a) every field of a storage record that the restore side reads (loadClients, loadSubscriptions, loadInflight, loadRetained, Message.ToPacket) is set by the backend's writer (updateClient, OnSubscribed, OnRetainMessage, OnQosPublish); " +
 			"(b) the restore side produces every field the session-relevant code reads afterwards: ToPacket must produce Expiry and ProtocolVersion (read by the expiry housekeeping), loadClients must fill every persisted client property; " +
-			"(c) a key function that concatenates two or more unconstrained strings with a constant separator is not injective; the key-kind prefixes are pairwise prefix-free and the iteration prefix matches the key function's.",
+			"(c) a key function that concatenates two or more unconstrained strings with a constant separator is not injective; the key-kind prefixes are pairwise prefix-free and the iteration prefix matches the key function's; " +
+			"(d) every Stored* row is decoded into a fresh zero record (declared inside the row callback / loop body): json.Unmarshal leaves omitted fields untouched; (e) ResendInflightMessages re-persists every resumed record before the write that may fail.",
 		NotDecided: []string{"anything that needs a running store", "JSON encoding of the records", "ordering and durability of the engines"},
 		Run:        runC20,
 	})
